@@ -896,6 +896,150 @@ theorem stat_assign {vars : List Name} {vals : List Expr} (hE : ExprsOK vals) {s
     refine ⟨h1', ?_⟩
     rw [← hg.entry g.name, h2']; rfl
 
+/-- `good_closure_body` with declarations made before the parameters (the implicit `self`) -/
+theorem good_closure_body_ex {fs : List Frame} {cst pp pB : Nat} {envC : Env} (ps : List Name) (ex : List Decl)
+    (hs : Sorted fs cst) (hh : ∀ g ∈ fs.head?, g.start < cst) (hex : ∀ d ∈ ex, d.pos < pp)
+    (hA : Agree (ex ++ vis fs (some .closure) false) envC) (hcst : cst < pp) (hpB : pp + 2 * ps.length + 2 ≤ pB) :
+    Good ({ kind := .normal, start := pB - 1, children := [] } ::
+          { kind := .closure, start := cst, children := (declsAt pp ps).reverse.map .decl ++ ex.map .decl } :: fs) pB
+      (bindNames envC pp ps) := by
+  have hvis : ∀ ck e, vis ({ kind := .normal, start := pB - 1, children := [] } ::
+          { kind := .closure, start := cst, children := (declsAt pp ps).reverse.map .decl ++ ex.map .decl } :: fs) ck e
+        = (declsAt pp ps).reverse ++ (ex ++ vis fs (some .closure) false) := by
+    intro ck e
+    simp only [vis, ownC, flat_nil, List.nil_append, flat_append, flat_decls, List.append_assoc]
+  refine ⟨⟨by simp, ⟨?_, hs, hh⟩, ?_⟩, ?_, ?_, ?_⟩
+  · intro c hc
+    rcases List.mem_append.mp hc with hc | hc
+    · have := params_pos pp ps c hc
+      refine ⟨by show c.pos < pB - 1; omega, fun g hg => ?_⟩
+      rw [List.mem_map] at hc; obtain ⟨d, _, rfl⟩ := hc; cases hg
+    · rw [List.mem_map] at hc
+      obtain ⟨d, hd, rfl⟩ := hc
+      have := hex d hd
+      exact ⟨by show d.pos < pB - 1; omega, fun g hg => by cases hg⟩
+  · intro g hg
+    rw [head_cons_mem hg]
+    show cst < pB - 1
+    omega
+  · intro f hf
+    rw [head_cons_mem hf]
+    show pB - 1 < pB
+    omega
+  · rw [hvis]; exact Agree.bindNames ps pp _ _ hA
+  · rw [hvis]; exact Agree.bindNames ps pp _ _ hA
+
+theorem stat_loclAttr {n : Name} {val : Expr} (hE : ExprOK val) {s : ISt} {r : RefSt} {env : Env}
+    (hr : Rel s r) (hg : Good s.frames s.pos env) (ht : TopNormal s.frames) :
+    StatGoal (.loclAttr n val) s r env := by
+  simp only [StatGoal, implStat, refStat]
+  rw [← hr.1]
+  have hfr : (((s.push .localOrAssign s.pos).addDecl { name := n, pos := s.pos + 2, isLocal := true }).skip 6).frames
+      = { kind := .localOrAssign, start := s.pos, children := [.decl { name := n, pos := s.pos + 2, isLocal := true }] } :: s.frames := by
+    simp [addKids]
+  have g1 : Good (((s.push .localOrAssign s.pos).addDecl { name := n, pos := s.pos + 2, isLocal := true }).skip 6).frames
+      (((s.push .localOrAssign s.pos).addDecl { name := n, pos := s.pos + 2, isLocal := true }).skip 6).pos env := by
+    rw [hfr]
+    apply Good.push hg.sorted hg.top
+    · intro c hc
+      simp only [List.mem_singleton] at hc; subst hc
+      exact ⟨by simp [Node.pos], fun g hgk => by cases hgk⟩
+    · show s.pos < _; simp
+    · rw [vis_loa _ _ ht]; exact hg.entry
+    · rw [vis_loa _ _ ht]; exact hg.entry
+  have a := hE _ (r.skip 6) env (Rel.skip (s := (s.push .localOrAssign s.pos).addDecl _) ⟨hr.1, hr.2⟩ 6) g1
+  obtain ⟨cs, h1, k1⟩ := a.frames
+  rw [hfr] at h1
+  have hpop := pop_frames _ { kind := .localOrAssign, start := s.pos, children := cs ++ [{ name := n, pos := s.pos + 2, isLocal := true }].map .decl } s.frames (by rw [h1]; simp [addKids])
+  have hm := a.mono
+  simp only [skip_pos, addDecl_pos, push_pos] at hm
+  refine ⟨a.rel.pop, by simp only [pop_pos]; omega, ⟨_, hpop⟩, ?_⟩
+  rw [hpop]
+  apply hg.addStatNode ht (by simp only [pop_pos]; omega)
+  · refine ⟨by simp only [Node.pos, pop_pos]; omega, ?_⟩
+    intro g hgk
+    simp only [nodeKids, List.mem_append] at hgk
+    simp only [pop_pos]
+    rcases hgk with hgk | hgk
+    · exact (k1 g hgk).2.1
+    · simp only [List.map_cons, List.map_nil, List.mem_singleton] at hgk; subst hgk
+      show s.pos + 2 < _; omega
+  · rw [contrib_loa _ _ _ (fun c hc => isInert_of_closure (k1 c hc).1)]
+    simpa using hg.entry.cons_local n (s.pos + 2)
+
+theorem addImplicitSelf_spec (s : ISt) (colon : Bool) (p : Nat) :
+    (s.addImplicitSelf colon p).pos = s.pos ∧ (s.addImplicitSelf colon p).out = s.out ∧
+    (s.addImplicitSelf colon p).frames = addKids ((selfDecls colon p).map .decl) s.frames := by
+  cases colon <;> simp [ISt.addImplicitSelf, selfDecls]
+
+theorem selfDecls_pos (colon : Bool) (p : Nat) : ∀ d ∈ selfDecls colon p, d.pos = p := by
+  intro d hd; cases colon <;> simp [selfDecls] at hd; subst hd; rfl
+
+theorem Agree.selfEnv {ds : List Decl} {env : Env} (h : Agree ds env) (colon : Bool) (p : Nat) :
+    Agree (selfDecls colon p ++ ds) (selfEnv colon p env) := by
+  cases colon
+  · simpa [selfDecls, Scope.selfEnv] using h
+  · simpa [selfDecls, Scope.selfEnv] using h.cons_local selfName p
+
+theorem stat_method {obj : Name} {k : Nat} {colon : Bool} {ps : List Name} {body : List Stat} (hB : BlockOK body)
+    {s : ISt} {r : RefSt} {env : Env} (hr : Rel s r) (hg : Good s.frames s.pos env) (ht : TopNormal s.frames) :
+    StatGoal (.method obj k colon ps body) s r env := by
+  simp only [StatGoal, implStat, refStat]
+  rw [← hr.1]
+  have hold : ∀ ck, vis s.frames ck false = vis s.frames none true := fun ck => vis_topNormal ht _ _
+  -- the prefix name is resolved from the statement's own (empty) scope
+  have g0 : Good ((s.push .funcStat s.pos).skip 1).frames ((s.push .funcStat s.pos).skip 1).pos env := by
+    have hv : ∀ ck e, vis ({ kind := .funcStat, start := s.pos, children := [] } :: s.frames) ck e = vis s.frames none true := by
+      intro ck e; simp [vis, ownC, hold]
+    apply Good.push hg.sorted hg.top
+    · intro c hc; cases hc
+    · show s.pos < _; simp
+    · rw [hv]; exact hg.entry
+    · rw [hv]; exact hg.entry
+  have r1 : Rel (((s.push .funcStat s.pos).skip 1).use obj) ((r.skip 1).use env obj) :=
+    Rel.use (Rel.skip (s := s.push .funcStat s.pos) ⟨hr.1, hr.2⟩ 1) g0 obj
+  -- the closure scope: `self` (for a method), then the parameters
+  obtain ⟨a1, a2, a3⟩ := addImplicitSelf_spec
+    (((((s.push .funcStat s.pos).skip 1).use obj).skip (2 * k)).push .closure (s.pos + 4 + 4 * k)) colon (s.pos + 4 * k)
+  obtain ⟨l1, l2, l3⟩ := addLocals_spec ps
+    ((((((s.push .funcStat s.pos).skip 1).use obj).skip (2 * k)).push .closure (s.pos + 4 + 4 * k)).addImplicitSelf colon (s.pos + 4 * k))
+    (s.pos + 6 + 4 * k)
+  rw [a1] at l1; rw [a2] at l2; rw [a3, addKids_addKids] at l3
+  simp only [push_pos, skip_pos, use_pos, push_out, skip_out, push_frames, skip_frames, use_frames, addKids,
+    List.append_nil] at l1 l2 l3
+  have hexpos : ∀ d ∈ selfDecls colon (s.pos + 4 * k), d.pos < s.pos + 6 + 4 * k := by
+    intro d hd; rw [selfDecls_pos _ _ d hd]; omega
+  have b := hB
+    (((((((s.push .funcStat s.pos).skip 1).use obj).skip (2 * k)).push .closure (s.pos + 4 + 4 * k)).addImplicitSelf colon (s.pos + 4 * k)).addLocals (s.pos + 6 + 4 * k) ps |>.skip (2 + ps.length))
+    (((r.skip 1).use env obj).skip (2 * k + 2 + ps.length))
+    (bindNames (selfEnv colon (s.pos + 4 * k) env) (s.pos + 6 + 4 * k) ps)
+    ⟨by simp only [skip_pos, l1, RefSt.skip, RefSt.use]; rw [← hr.1]; omega,
+     by simp only [skip_out, l2, RefSt.skip]; exact r1.2⟩
+    (by
+      simp only [skip_frames, skip_pos, l1, l3]
+      exact good_closure_body_ex
+        (fs := { kind := .funcStat, start := s.pos, children := [] } :: s.frames)
+        (cst := s.pos + 4 + 4 * k) (pp := s.pos + 6 + 4 * k) (pB := s.pos + 2 * 1 + 2 + 2 * (2 * k) + 2 * (2 + ps.length))
+        (envC := selfEnv colon (s.pos + 4 * k) env) ps (selfDecls colon (s.pos + 4 * k))
+        ⟨(by intro c hc; cases hc), hg.sorted, hg.top⟩
+        (by intro g hgm; rw [head_cons_mem hgm]; show s.pos < s.pos + 4 + 4 * k; omega)
+        hexpos
+        (by
+          have : vis ({ kind := .funcStat, start := s.pos, children := [] } :: s.frames)
+              (some .closure) false = vis s.frames none true := by simp [vis, ownC, hold]
+          rw [this]; exact hg.entry.selfEnv colon _)
+        (by omega) (by omega))
+  exact func_stat_tail (gk := []) (env' := env) (cst := s.pos + 4 + 4 * k)
+    (pk := (declsAt (s.pos + 6 + 4 * k) ps).reverse.map .decl ++ (selfDecls colon (s.pos + 4 * k)).map .decl) hg ht b
+    (by simp only [skip_frames, l3, List.map_nil]) (by simp only [skip_pos, l1]; omega)
+    (by
+      intro c hc
+      simp only [skip_pos, l1]
+      rcases List.mem_append.mp hc with hc | hc
+      · have := params_pos (s.pos + 6 + 4 * k) ps c hc; omega
+      · rw [List.mem_map] at hc; obtain ⟨d, hd, rfl⟩ := hc; have := hexpos d hd; show d.pos < _; omega)
+    (by intro d hd; cases hd) (by simp only [skip_pos, l1]; omega) (by simpa using hg.entry)
+
 mutual
 theorem simExpr : ∀ (e : Expr) (s : ISt) (r : RefSt) (env : Env), Rel s r → Good s.frames s.pos env →
     StepE s (implExpr s e) (refExpr env r e)
@@ -948,6 +1092,8 @@ theorem simStat : ∀ (st : Stat) (s : ISt) (r : RefSt) (env : Env), Rel s r →
   | .do_ body, _, _, _, hr, hg, ht => stat_do (simBlock body) hr hg ht
   | .if_ c t e, _, _, _, hr, hg, ht => stat_if (simExpr c) (simBlock t) (simBlock e) hr hg ht
   | .callS _ args, _, _, _, hr, hg, _ => stat_callS (simExprs args) hr hg
+  | .loclAttr _ val, _, _, _, hr, hg, ht => stat_loclAttr (simExpr val) hr hg ht
+  | .method _ _ _ _ body, _, _, _, hr, hg, ht => stat_method (simBlock body) hr hg ht
 theorem simStats : ∀ (sts : List Stat) (s : ISt) (r : RefSt) (env : Env), Rel s r → Good s.frames s.pos env →
     TopNormal s.frames → StepS s (implStats s sts) (refBlock env r sts).1 (refBlock env r sts).2
   | [], s, r, env, hr, hg, ht => by
